@@ -57,7 +57,8 @@ Spec == Init /\ [][Next]_vars
 OutSet == {out[k] : k \in DOMAIN out}
 Want   == {on \in Candidates(cf.iuse, cf.ft, cf.ff) : Holds(on)}
 InvSound      == \A k \in DOMAIN out : /\ Holds(out[k])
-                                       /\ cf.ft \subseteq out[k] /\ out[k] \cap cf.ff = {} /\ out[k] \subseteq cf.iuse
+                                       /\ (cf.ft \cap cf.iuse) \subseteq out[k] /\ out[k] \cap cf.ff = {}
+                                       /\ out[k] \subseteq cf.iuse
 InvOnce       == \A j, k \in DOMAIN out : j # k => out[j] # out[k]
 InvComplete   == mode = "done" => OutSet = Want
 InvPreferred  == LET p == Preferred(cf.iuse, cf.ft, cf.ff, cf.pt) IN
